@@ -16,7 +16,7 @@ func init() {
 		Explanation: "Decides on every CFG path of the observer runner that the user callback is reached only after the hand state of that same table was passed through AsObserver, unless system mode is on or the path establishes that there is no hand state (R1); that the engine adapter hands its actor, and keeps, the address of a local that was filled by json.Unmarshal from the incoming table's own JSON — never the incoming pointer (R2); and that nothing reachable from the observer runner calls a player action of the adapter (R3). NOT decided: what AsObserver hides (pinned dependency, trusted).",
 		Rules: map[string]string{
 			"R1": "filter-before-emit on every path where a hand state may exist and system mode is off",
-			"R2": "adapter passes and keeps a fresh JSON round-trip copy of the incoming table; the JSON copy is complete (every field reachable from Table round-trips)",
+			"R2": "adapter passes and keeps a fresh JSON round-trip copy of the incoming table, and nothing else hands a table to an actor; the JSON copy is complete (every field reachable from Table round-trips)",
 			"R3": "observer runner has no write path to the engine",
 			"R4": "the actor package invokes only the player operations of the engine: no accessor hands an actor the engine's live table or hand state",
 		},
@@ -219,6 +219,37 @@ func checkC20(c *Ctx) {
 		}
 	}
 	c.Min("R2", "engine adapters", n2, 1)
+	// … and that copying method is the only place that hands a table to an actor: any other call of
+	// Actor.UpdateTableState (priming a late-wired actor with the table the adapter was built with, say)
+	// by-passes the copy — the adapter's initial table is the engine's live one
+	nOther := 0
+	for _, f := range p.Funcs {
+		if !inModule(p, f) {
+			continue
+		}
+		for _, ci := range Calls(f) {
+			if calleeName(ci.Common()) != "Actor.UpdateTableState" {
+				continue
+			}
+			isAdapterUpdate := false
+			if ai != nil && f.Parent() == nil && f.Signature.Recv() != nil && fnName(f) == "UpdateTableState" {
+				if n := namedOf(f.Signature.Recv().Type()); n != nil {
+					for _, t := range p.Implementers(ai) {
+						if t == n {
+							isAdapterUpdate = true
+						}
+					}
+				}
+			}
+			if !isAdapterUpdate {
+				nOther++
+				c.Bad("R2", "table-to-actor-outside-the-copying-path:"+fnName(f), p.InstrPos(ci), fnName(f)+" hands "+p.Sym(ci.Common().Args[0]).Strip().String()+" to an actor without the adapter's JSON copy: a runner that filters in place (the observer) then edits whatever that object is — possibly the engine's own table and hand state")
+			}
+		}
+	}
+	if nOther == 0 {
+		c.Ok("R2", "table-to-actor-only-through-the-copying-path", "-", "Actor.UpdateTableState is called only by the adapter's copying UpdateTableState")
+	}
 
 	// R3 no write path
 	var roots []*ssa.Function
